@@ -438,6 +438,23 @@ def _pe_tend_si(specs, td, prefix, gmax=0.0):
     return out
 
 
+
+def _lnps_noise_atol(out, specs, g, eq, st):
+    """The modal log-pressure of the SAME physical state carries, under each scale, the rounding noise of the transform of its
+    (large, scale-dependent) mean: ~ LEAK |lnps_00| in every other coefficient (see the `(other modes)` yardstick in _cmp).
+    implicit_terms turns that into  |lam| R T_ref LEAK |lnps_00|  of divergence tendency - an input-conditioning floor, not a
+    scale dependence of the code (false alarm of the thorough tier, TL31: 6e-19 1/s^2 against a field maximum of 2.7e-10; DESIGN 9.7)."""
+    try:
+        lam = float(np.max(np.abs(np.asarray(g.laplacian_eigenvalues))))
+        l00 = float(np.max(np.abs(np.asarray(st.log_surface_pressure)[..., 0, 0])))
+        tref = float(np.max(np.abs(np.asarray(eq.reference_temperature))))
+        rr = float(eq.physics_specs.R)
+        k = 'divergence[1/s^2]'
+        out.atol[k] = out.atol.get(k, 0.0) + LEAK * l00 * lam * rr * tref * _fac(specs, '1/second**2')
+    except Exception:
+        pass
+    return out
+
 def _si_constants(rng):
     """SI constants of the physical problem: the defaults of scales.py, perturbed (so that a constant that does
     not come from the specs is visible even when it is dimensionless)."""
@@ -550,7 +567,7 @@ def r_pe(ctx, a):
         ex = eq.explicit_terms(st); im = eq.implicit_terms(st)
         if first is None: first = (eq, st, dyn.tree_to_np(ex))
         R['explicit'].append(_pe_tend_si(specs, ex, '', _gmax(ex)))
-        R['implicit'].append(_pe_tend_si(specs, im, '', _gmax(im)))
+        R['implicit'].append(_lnps_noise_atol(_pe_tend_si(specs, im, '', _gmax(im)), specs, g, eq, st))
         inv = Out(); g_st = _gmax(st)
         for eta_f in (0.5, -0.25):
             if kind == 'dry':
@@ -855,7 +872,7 @@ def r_pe_extreme(ctx, a):
         dt = float(_ND(specs, p['dt'], 'second'))
         ex = eq.explicit_terms(st); im = eq.implicit_terms(st)
         R['explicit'].append(_pe_tend_si(specs, ex, '', _gmax(ex)))
-        R['implicit'].append(_pe_tend_si(specs, im, '', _gmax(im)))
+        R['implicit'].append(_lnps_noise_atol(_pe_tend_si(specs, im, '', _gmax(im)), specs, g, eq, st))
         s1 = dyn.integrator('crank_nicolson_rk2', eq, dt)(st)
         R['step'].append(_pe_state_si(specs, g, s1, 'crank_nicolson_rk2 step: ', _gmax(s1, st)))
     ctx.count('tref_range:%g' % a['tref_range'])
@@ -1582,7 +1599,7 @@ def r_whole_state_scales(ctx, a):
         dt = float(_ND(specs, p['dt'], 'second')); eta = 0.5 * dt
         ex = eq.explicit_terms(st); im = eq.implicit_terms(st); inv_st = eq.implicit_inverse(st, eta)
         R['explicit'].append(_pe_tend_si(specs, ex, '', _gmax(ex)))
-        R['implicit'].append(_pe_tend_si(specs, im, '', _gmax(im)))
+        R['implicit'].append(_lnps_noise_atol(_pe_tend_si(specs, im, '', _gmax(im)), specs, g, eq, st))
         R['inverse'].append(_pe_state_si(specs, g, inv_st, 'eta=0.5dt: ', _gmax(st)))
         # okS of C12_whole_state_step_covariant: np.linalg.inv of the implicit matrices is two-sided, under EVERY scale, for
         # the step sizes used below (0.5 dt: implicit_inverse / crank_nicolson_rk2; dt: backward_forward_euler)
